@@ -5,7 +5,7 @@ package avc
 func naluPayloadLen() int {
 	c := []int{0, 1, 2, 3}
 	if vTier() == 1 {
-		c = []int{0, 1, 2, 3, 254, 255, 256, 65534}
+		c = []int{0, 1, 2, 3, 4, 5, 6, 7, 8, 254, 255, 256, 65533, 65534}
 	}
 	return c[vChoice(len(c))]
 }
@@ -116,7 +116,9 @@ func HarnessC12_Record() {
 		// count boundaries: quick 17 SPS / 3 PPS, thorough 31 SPS / 255 PPS, one byte each
 		ns, np := 17, 3
 		if vTier() == 1 {
-			ns, np = 31, 255
+			// every SPS count 0..31 with a PPS count from the whole 0..255 range
+			ns = vChoice(32)
+			np = []int{0, 1, 2, 15, 16, 127, 128, 254, 255}[vChoice(9)]
 		}
 		sps = make([]*NALU, ns)
 		for i := range sps {
